@@ -1,5 +1,6 @@
 import GotranxProofs.Validate
 import GotranxProofs.Pins
+import GotranxProofs.Analysis
 /-!
 # C20 — symbolic right-hand side and Jacobian are those of the model
 -/
@@ -83,6 +84,19 @@ theorem states_order (m : Model) (π : DepOrder) (L : Layout) (h : layout m π =
     | some mon =>
       simp only [hs, hm, Option.bind_eq_bind, Option.bind_some, Option.pure_def, Option.some.injEq] at h
       subst h; rfl
+
+/-- **Jacobian entries are partial derivatives.** Each entry of `Impl.jacobian` is `diff s r` of an
+expanded right-hand side `r`; on the smooth fragment its value is the derivative of
+`v ↦ ⟦r⟧ρ[s ↦ v]` at `ρ s` — through all intermediates, because `r` has none left. -/
+theorem jacobian_entry_correct (ρ : Name → ℝ) (s : Name) (r : Expr) (h : Smooth ρ s r) :
+    HasDerivAt (fun v => evalR (upd ρ s v) r) (evalR ρ (diff s r)) (ρ s) := diff_correct ρ s r h
+
+theorem jacobian_shape (m : Model) (π : DepOrder) (k : Nat) (J : List (List Expr)) (rhs : List Expr) (sts : List Name)
+    (hr : rhsMatrix m π k = some rhs) (hs : sortedStates m π = some sts) (hJ : jacobian m π k = some J) :
+    J = rhs.map fun e => sts.map fun s => diff s e := by
+  unfold jacobian at hJ
+  simp only [hr, hs, Option.bind_eq_bind, Option.bind_some, Option.pure_def, Option.some.injEq] at hJ
+  exact hJ.symm
 
 /-- rounds: the loop never fails when no intermediate is mentioned -/
 theorem loop_done (σ : Name → Option Expr) (isInter : Name → Bool) (fuel : Nat) (rhs : List Expr)
